@@ -290,6 +290,8 @@ def gen_change_plan(ch: Chooser, *, faults: bool, restarts: bool, deletes: bool 
     # synchronous handlers (run in simulated threads): none in most plans, some or most in the others
     share = sync_share if sync_share is not None else ch.choice([0.0, 0.0, 0.0, 0.3, 0.7])
     if share:
+        # (the executor may be busy: a submitted function starts some time later)
+        plan['operators'][0]['thread_start_latency'] = ch.choice([0.0, 0.0, 0.001, 0.05])
         for h in handlers:
             if ch.bool(share):
                 h['sync'] = True
